@@ -177,13 +177,13 @@ theorem box_distance_mono {A B : Box} (h : BoxSub A B) (p : P3) :
 
 /-! ### the slab test -/
 
-theorem slabComponent_eq (o d tmin tmax lo hi : ℝ) :
-    slabComponent o d tmin tmax lo hi =
+theorem slabArith_eq (o d tmin tmax lo hi : ℝ) :
+    slabArith o d tmin tmax lo hi =
       (decide (min tmax (max ((lo - o) * (1 / d)) ((hi - o) * (1 / d))) ≤
                max tmin (min ((lo - o) * (1 / d)) ((hi - o) * (1 / d)))),
        max tmin (min ((lo - o) * (1 / d)) ((hi - o) * (1 / d))),
        min tmax (max ((lo - o) * (1 / d)) ((hi - o) * (1 / d)))) := by
-  simp only [slabComponent, Nat.cast_one]
+  simp only [slabArith, Nat.cast_one]
   set t0 := (lo - o) * (1 / d)
   set t1 := (hi - o) * (1 / d)
   have e1 : (if t1 < t0 then t1 else t0) = min t0 t1 := by
@@ -205,76 +205,122 @@ theorem slabComponent_eq (o d tmin tmax lo hi : ℝ) :
     · exact (min_eq_left (not_lt.mp h)).symm
   rw [e3, e4]
 
-/-- one axis: a wider slab (`loB ≤ loA`, `hiA ≤ hiB`, and the slabs overlap) entered with a wider
-    range leaves a wider range, and rejects only if the narrower one rejects -/
+/-- non-zero direction component: the arithmetic -/
+theorem slabComponent_ne (o d tmin tmax lo hi : ℝ) (hd : d ≠ 0) :
+    slabComponent o d tmin tmax lo hi = slabArith o d tmin tmax lo hi := by
+  simp [slabComponent, hd]
+
+/-- zero direction component, origin strictly inside the slab: the range is left alone -/
+theorem slabComponent_zero_in (o tmin tmax lo hi : ℝ) (h1 : lo < o) (h2 : o < hi) :
+    slabComponent o 0 tmin tmax lo hi = (decide (tmax ≤ tmin), tmin, tmax) := by
+  simp [slabComponent, h1, h2]
+
+/-- zero direction component, origin not strictly inside: rejected (on a face the IEEE outcome depends on the
+    sign of the zero; the real-number reading rejects) -/
+theorem slabComponent_zero_out (o tmin tmax lo hi : ℝ) (h : ¬ (lo < o ∧ o < hi)) :
+    (slabComponent o 0 tmin tmax lo hi).1 = true := by
+  have h' : (decide (lo < o) && decide (o < hi)) = false := by
+    simp only [Bool.and_eq_false_iff, decide_eq_false_iff_not]
+    by_cases h1 : lo < o
+    · exact Or.inr (fun h2 => h ⟨h1, h2⟩)
+    · exact Or.inl h1
+  simp only [slabComponent, Nat.cast_zero, RS.beq_eq, decide_true, if_true, h', Bool.false_eq_true, if_false]
+  split_ifs
+  · rfl
+  · rw [slabArith_eq]
+    simp only [div_zero, mul_zero, min_self, max_self, decide_eq_true_eq]
+    exact le_trans (min_le_right _ _) (le_max_right _ _)
+
+/-- one axis: a wider slab (`loB ≤ loA`, `hiA ≤ hiB`, and the slabs overlap) entered with a wider range
+    rejects only if the narrower one rejects, and if the narrower one does not reject it leaves a wider range -/
 theorem slabComponent_mono (o d tminA tmaxA tminB tmaxB loA hiA loB hiB : ℝ)
     (h1 : tminB ≤ tminA) (h2 : tmaxA ≤ tmaxB) (h3 : loB ≤ loA) (h4 : hiA ≤ hiB)
     (h5 : loB ≤ hiA) (h6 : loA ≤ hiB) :
-    (slabComponent o d tminB tmaxB loB hiB).2.1 ≤ (slabComponent o d tminA tmaxA loA hiA).2.1 ∧
-    (slabComponent o d tminA tmaxA loA hiA).2.2 ≤ (slabComponent o d tminB tmaxB loB hiB).2.2 ∧
-    ((slabComponent o d tminB tmaxB loB hiB).1 = true → (slabComponent o d tminA tmaxA loA hiA).1 = true) := by
-  simp only [slabComponent_eq, decide_eq_true_eq]
-  set k := 1 / d
-  have hL : min ((loB - o) * k) ((hiB - o) * k) ≤ min ((loA - o) * k) ((hiA - o) * k) := by
-    rcases le_total 0 k with hk | hk
-    · apply le_min
-      · exact le_trans (min_le_left _ _) (mul_le_mul_of_nonneg_right (by linarith) hk)
-      · exact le_trans (min_le_left _ _) (mul_le_mul_of_nonneg_right (by linarith) hk)
-    · apply le_min
-      · exact le_trans (min_le_right _ _) (mul_le_mul_of_nonpos_right (by linarith) hk)
-      · exact le_trans (min_le_right _ _) (mul_le_mul_of_nonpos_right (by linarith) hk)
-  have hH : max ((loA - o) * k) ((hiA - o) * k) ≤ max ((loB - o) * k) ((hiB - o) * k) := by
-    rcases le_total 0 k with hk | hk
-    · apply max_le
-      · exact le_trans (mul_le_mul_of_nonneg_right (by linarith) hk) (le_max_right _ _)
-      · exact le_trans (mul_le_mul_of_nonneg_right (by linarith) hk) (le_max_right _ _)
-    · apply max_le
-      · exact le_trans (mul_le_mul_of_nonpos_right (by linarith) hk) (le_max_left _ _)
-      · exact le_trans (mul_le_mul_of_nonpos_right (by linarith) hk) (le_max_left _ _)
-  have hmin : max tminB (min ((loB - o) * k) ((hiB - o) * k)) ≤ max tminA (min ((loA - o) * k) ((hiA - o) * k)) :=
-    max_le_max h1 hL
-  have hmax : min tmaxA (max ((loA - o) * k) ((hiA - o) * k)) ≤ min tmaxB (max ((loB - o) * k) ((hiB - o) * k)) :=
-    min_le_min h2 hH
-  exact ⟨hmin, hmax, fun hr => le_trans hmax (le_trans hr hmin)⟩
+    ((slabComponent o d tminB tmaxB loB hiB).1 = true → (slabComponent o d tminA tmaxA loA hiA).1 = true) ∧
+    ((slabComponent o d tminA tmaxA loA hiA).1 = false →
+      (slabComponent o d tminB tmaxB loB hiB).2.1 ≤ (slabComponent o d tminA tmaxA loA hiA).2.1 ∧
+      (slabComponent o d tminA tmaxA loA hiA).2.2 ≤ (slabComponent o d tminB tmaxB loB hiB).2.2) := by
+  by_cases hd : d = 0
+  · subst hd
+    by_cases hA : loA < o ∧ o < hiA
+    · have hB : loB < o ∧ o < hiB := ⟨lt_of_le_of_lt h3 hA.1, lt_of_lt_of_le hA.2 h4⟩
+      rw [slabComponent_zero_in _ _ _ _ _ hA.1 hA.2, slabComponent_zero_in _ _ _ _ _ hB.1 hB.2]
+      simp only [decide_eq_true_eq]
+      exact ⟨fun hr => le_trans h2 (le_trans hr h1), fun _ => ⟨h1, h2⟩⟩
+    · have := slabComponent_zero_out o tminA tmaxA loA hiA hA
+      exact ⟨fun _ => this, fun hf => by rw [this] at hf; cases hf⟩
+  · rw [slabComponent_ne _ _ _ _ _ _ hd, slabComponent_ne _ _ _ _ _ _ hd]
+    simp only [slabArith_eq, decide_eq_true_eq]
+    set k := 1 / d
+    have hL : min ((loB - o) * k) ((hiB - o) * k) ≤ min ((loA - o) * k) ((hiA - o) * k) := by
+      rcases le_total 0 k with hk | hk
+      · apply le_min
+        · exact le_trans (min_le_left _ _) (mul_le_mul_of_nonneg_right (by linarith) hk)
+        · exact le_trans (min_le_left _ _) (mul_le_mul_of_nonneg_right (by linarith) hk)
+      · apply le_min
+        · exact le_trans (min_le_right _ _) (mul_le_mul_of_nonpos_right (by linarith) hk)
+        · exact le_trans (min_le_right _ _) (mul_le_mul_of_nonpos_right (by linarith) hk)
+    have hH : max ((loA - o) * k) ((hiA - o) * k) ≤ max ((loB - o) * k) ((hiB - o) * k) := by
+      rcases le_total 0 k with hk | hk
+      · apply max_le
+        · exact le_trans (mul_le_mul_of_nonneg_right (by linarith) hk) (le_max_right _ _)
+        · exact le_trans (mul_le_mul_of_nonneg_right (by linarith) hk) (le_max_right _ _)
+      · apply max_le
+        · exact le_trans (mul_le_mul_of_nonpos_right (by linarith) hk) (le_max_left _ _)
+        · exact le_trans (mul_le_mul_of_nonpos_right (by linarith) hk) (le_max_left _ _)
+    have hmin : max tminB (min ((loB - o) * k) ((hiB - o) * k)) ≤ max tminA (min ((loA - o) * k) ((hiA - o) * k)) :=
+      max_le_max h1 hL
+    have hmax : min tmaxA (max ((loA - o) * k) ((hiA - o) * k)) ≤ min tmaxB (max ((loB - o) * k) ((hiB - o) * k)) :=
+      min_le_min h2 hH
+    exact ⟨fun hr => le_trans hmax (le_trans hr hmin), fun _ => ⟨hmin, hmax⟩⟩
 
-/-- `slab_mono`: the slab test is monotone in the box -/
+/-- `slab_mono`: the slab test is monotone in the box — every ray, zero direction components included -/
 theorem slab_mono {A B : Box} (h : BoxSub A B) (o d : P3) (mn mx : ℝ)
     (hA : intersectsRayInRange A o d mn mx = true) : intersectsRayInRange B o d mn mx = true := by
   obtain ⟨h1, h2⟩ := h
   rw [aabb_contains_iff] at h1 h2
   obtain ⟨a1, a2, a3, a4, a5, a6⟩ := h1
   obtain ⟨b1, b2, b3, b4, b5, b6⟩ := h2
-  have mx_ := slabComponent_mono o.x d.x mn mx mn mx (A.Min.x - kEps) (A.Max.x + kEps) (B.Min.x - kEps) (B.Max.x + kEps)
-    le_rfl le_rfl (by linarith) (by linarith)
   have keps : (0 : ℝ) ≤ kEps := by simp [kEps]
-  obtain ⟨x1, x2, x3⟩ := mx_ (by linarith) (by linarith)
-  have my_ := slabComponent_mono o.y d.y _ _ _ _ (A.Min.y - kEps) (A.Max.y + kEps) (B.Min.y - kEps) (B.Max.y + kEps)
-    x1 x2 (by linarith) (by linarith) (by linarith) (by linarith)
-  obtain ⟨y1, y2, y3⟩ := my_
-  have mz_ := slabComponent_mono o.z d.z _ _ _ _ (A.Min.z - kEps) (A.Max.z + kEps) (B.Min.z - kEps) (B.Max.z + kEps)
-    y1 y2 (by linarith) (by linarith) (by linarith) (by linarith)
-  obtain ⟨z1, z2, z3⟩ := mz_
   simp only [intersectsRayInRange] at hA ⊢
-  by_cases cx : (slabComponent o.x d.x mn mx (B.Min.x - kEps) (B.Max.x + kEps)).1 = true
-  · have := x3 cx; simp [this] at hA
-  · by_cases cxa : (slabComponent o.x d.x mn mx (A.Min.x - kEps) (A.Max.x + kEps)).1 = true
-    · simp [cxa] at hA
-    · simp only [cxa, cx] at hA ⊢
-      by_cases cy : (slabComponent o.y d.y (slabComponent o.x d.x mn mx (B.Min.x - kEps) (B.Max.x + kEps)).2.1
-          (slabComponent o.x d.x mn mx (B.Min.x - kEps) (B.Max.x + kEps)).2.2 (B.Min.y - kEps) (B.Max.y + kEps)).1 = true
-      · have := y3 cy; simp [this] at hA
-      · by_cases cya : (slabComponent o.y d.y (slabComponent o.x d.x mn mx (A.Min.x - kEps) (A.Max.x + kEps)).2.1
-            (slabComponent o.x d.x mn mx (A.Min.x - kEps) (A.Max.x + kEps)).2.2 (A.Min.y - kEps) (A.Max.y + kEps)).1 = true
-        · simp [cya] at hA
-        · simp only [cya, cy] at hA ⊢
-          by_cases cz : (slabComponent o.z d.z
-              (slabComponent o.y d.y (slabComponent o.x d.x mn mx (B.Min.x - kEps) (B.Max.x + kEps)).2.1
-                (slabComponent o.x d.x mn mx (B.Min.x - kEps) (B.Max.x + kEps)).2.2 (B.Min.y - kEps) (B.Max.y + kEps)).2.1
-              (slabComponent o.y d.y (slabComponent o.x d.x mn mx (B.Min.x - kEps) (B.Max.x + kEps)).2.1
-                (slabComponent o.x d.x mn mx (B.Min.x - kEps) (B.Max.x + kEps)).2.2 (B.Min.y - kEps) (B.Max.y + kEps)).2.2
-              (B.Min.z - kEps) (B.Max.z + kEps)).1 = true
-          · have := z3 cz; simp [this] at hA
-          · simp [cz]
+  -- x
+  cases hax : (slabComponent o.x d.x mn mx (A.Min.x - kEps) (A.Max.x + kEps)).1 with
+  | true => simp [hax] at hA
+  | false =>
+    obtain ⟨x3, xr⟩ := slabComponent_mono o.x d.x mn mx mn mx (A.Min.x - kEps) (A.Max.x + kEps) (B.Min.x - kEps) (B.Max.x + kEps)
+      le_rfl le_rfl (by linarith) (by linarith) (by linarith) (by linarith)
+    obtain ⟨x1, x2⟩ := xr hax
+    have hbx : (slabComponent o.x d.x mn mx (B.Min.x - kEps) (B.Max.x + kEps)).1 = false := by
+      cases hb : (slabComponent o.x d.x mn mx (B.Min.x - kEps) (B.Max.x + kEps)).1 with
+      | false => rfl
+      | true => rw [x3 hb] at hax; cases hax
+    simp only [hax, hbx, Bool.false_eq_true, if_false] at hA ⊢
+    -- y
+    cases hay : (slabComponent o.y d.y (slabComponent o.x d.x mn mx (A.Min.x - kEps) (A.Max.x + kEps)).2.1
+        (slabComponent o.x d.x mn mx (A.Min.x - kEps) (A.Max.x + kEps)).2.2 (A.Min.y - kEps) (A.Max.y + kEps)).1 with
+    | true => simp [hay] at hA
+    | false =>
+      obtain ⟨y3, yr⟩ := slabComponent_mono o.y d.y _ _ _ _ (A.Min.y - kEps) (A.Max.y + kEps) (B.Min.y - kEps) (B.Max.y + kEps)
+        x1 x2 (by linarith) (by linarith) (by linarith) (by linarith)
+      obtain ⟨y1, y2⟩ := yr hay
+      have hby : (slabComponent o.y d.y (slabComponent o.x d.x mn mx (B.Min.x - kEps) (B.Max.x + kEps)).2.1
+          (slabComponent o.x d.x mn mx (B.Min.x - kEps) (B.Max.x + kEps)).2.2 (B.Min.y - kEps) (B.Max.y + kEps)).1 = false := by
+        cases hb : (slabComponent o.y d.y (slabComponent o.x d.x mn mx (B.Min.x - kEps) (B.Max.x + kEps)).2.1
+          (slabComponent o.x d.x mn mx (B.Min.x - kEps) (B.Max.x + kEps)).2.2 (B.Min.y - kEps) (B.Max.y + kEps)).1 with
+        | false => rfl
+        | true => rw [y3 hb] at hay; cases hay
+      simp only [hay, hby, Bool.false_eq_true, if_false] at hA ⊢
+      -- z
+      obtain ⟨z3, _⟩ := slabComponent_mono o.z d.z _ _ _ _ (A.Min.z - kEps) (A.Max.z + kEps) (B.Min.z - kEps) (B.Max.z + kEps)
+        y1 y2 (by linarith) (by linarith) (by linarith) (by linarith)
+      cases hbz : (slabComponent o.z d.z
+          (slabComponent o.y d.y (slabComponent o.x d.x mn mx (B.Min.x - kEps) (B.Max.x + kEps)).2.1
+            (slabComponent o.x d.x mn mx (B.Min.x - kEps) (B.Max.x + kEps)).2.2 (B.Min.y - kEps) (B.Max.y + kEps)).2.1
+          (slabComponent o.y d.y (slabComponent o.x d.x mn mx (B.Min.x - kEps) (B.Max.x + kEps)).2.1
+            (slabComponent o.x d.x mn mx (B.Min.x - kEps) (B.Max.x + kEps)).2.2 (B.Min.y - kEps) (B.Max.y + kEps)).2.2
+          (B.Min.z - kEps) (B.Max.z + kEps)).1 with
+      | false => simp
+      | true => have := z3 hbz; simp [this] at hA
 
 end Tree
 end PolyVerif
